@@ -7,7 +7,7 @@
 EXTENDS ParserLifecycle, Json
 VARIABLE hist
 Exp == [how |-> last'.out.how, verr |-> last'.out.verr, nse |-> last'.out.nse, full |-> last'.full, ok |-> last'.ok, rej |-> last'.rej,
-        done |-> last'.done, hz |-> last'.hz, hzdg |-> last'.hzdg, pool |-> pool', locked |-> locked', cache |-> cfg'.cache, use |-> cfg'.use, val |-> cfg'.val]
+        done |-> last'.done, hz |-> last'.hz, hzdg |-> last'.hzdg, vis |-> last'.vis, schema |-> cfg'.schema, pool |-> pool', locked |-> locked', cache |-> cfg'.cache, use |-> cfg'.use, val |-> cfg'.val]
 WInit == Init /\ hist = <<>>
 WNext == \/ /\ nops < MaxOps - 1 /\ Next /\ hist' = Append(hist, <<last'.op, Exp>>)
          \/ /\ nops = MaxOps - 1 /\ nops' = MaxOps /\ UNCHANGED <<cfg, tr, seqId, run, issued, stores, docpool, last, hist>>
